@@ -299,6 +299,7 @@ package broker
 //@   ensures [resend-window] err == nil ==> dtok - old(dtok) <= nall && dtry - old(dtry) == nall
 //@   ensures [saved] saved == old(saved)
 //@   modifies c.id, c.state, c.session, c.will, c.MaximumKeepAlive, c.ParallelPublishes, c.ParallelSubscribes, c.InflightMessages, c.TokenTimeout, c.PacketCallback, c.Ref, c.publishTokens, c.subscribeTokens, c.dequeueTokens, c.ackQueue, any(packet.Publish.Dup), nauth, authok, nsetup, setup_resumed, nrestore, nall, nsent, nsentall, sentseq, lastid, connack_sp, connack_code, nnodup, npubq, dtok, dtry, ptok, stok, nclose, tdying[c.tomb]
+//@   at call 2 send assert [connack-after-setup] nsetup == old(nsetup) + 1 && authok && c.session != nil
 //@   loop 4 invariant [resent] 0 <= rangeindex + 1 && rangeindex + 1 <= len(packets) && nall == len(packets) && nsentall == old(nsentall) + 1 + rangeindex + 1 && nnodup == old(nnodup) && nsent[2] == 1 && connack_code == 0 && (connack_sp <==> (!pkt.CleanSession && setup_resumed))
 //@   loop 4 invariant [order] forall k int {sentseq[k]} :: old(nsentall) + 1 <= k && k <= old(nsentall) + 1 + rangeindex ==> sentseq[k] == as(packets[k - old(nsentall) - 1], *packet.Publish)
 //@   loop 4 invariant [tokens] dtok - old(dtok) <= rangeindex + 1 && dtry - old(dtry) == rangeindex + 1
